@@ -73,12 +73,12 @@ where CL03<CS>: Scheme<PubKey = CL03PublicKey, PrivKey = CL03SecretKey>, CS::Has
     run_world(env, w, maxn);
 }
 
-/// Quick tier only: the same exploration over a world built on the fixed key pair of a larger ciphersuite, n <= 2 (what depends
+/// Quick tier only: the same exploration over a world built on the fixed key pair of a larger ciphersuite, n = 1 plus the longer-key and equal-value shapes (what depends
 /// on the SIZES of a suite - a draw capped at a fixed width, a blinding sized for CL1024 - shows only there).
 pub fn run_fixture<CS: Suite>(env: &Env, keypair_json: &str)
 where CL03<CS>: Scheme<PubKey = CL03PublicKey, PrivKey = CL03SecretKey>, CS::HashAlg: sha2::Digest, zkryptium::keys::pair::KeyPair<CL03<CS>>: serde::de::DeserializeOwned {
     match World::<CS>::from_keypair_json(keypair_json, 3) {
-        Some(w) => { env.ctx.assume(&format!("{}: issuer key pair is a committed fixture (generated once by the real KeyPair::generate, re-validated on load); thorough generates it afresh", CS::NAME)); run_world(env, w, 2) }
+        Some(w) => { env.ctx.assume(&format!("{}: issuer key pair is a committed fixture (generated once by the real KeyPair::generate, re-validated on load); thorough generates it afresh", CS::NAME)); run_world(env, w, 1) }
         None => env.machinery(&format!("key pair fixture for {} does not load or is not a product of two safe primes of the suite's size", CS::NAME)),
     }
 }
@@ -86,7 +86,7 @@ where CL03<CS>: Scheme<PubKey = CL03PublicKey, PrivKey = CL03SecretKey>, CS::Has
 fn run_world<CS: Suite>(env: &Env, w: World<CS>, maxn: usize)
 where CL03<CS>: Scheme<PubKey = CL03PublicKey, PrivKey = CL03SecretKey>, CS::HashAlg: sha2::Digest {
     let items = collect::<CS>(env, &w, maxn, "c19");
-    env.ctx.set_rule("worlds: CL1024 over a freshly generated key (n <= 3; thorough n <= 4 and CL2048 likewise); quick additionally CL2048 over the committed fixture key pair, everything else drawn afresh (n <= 2). Per world: every honest issuance proof (all non-empty hidden subsets) and signature proof (all subsets). S = all integer leaves of the serialized proof; Cset = every Fiat-Shamir challenge a recipient can recompute (explicit challenge / C fields, C mod 2^t, and the hashes the verifier recomputes from public data); X = every secret the prover holds that the harness knows (hidden m_i, e, s, v, commitment randomness r, and any randomness leaf that is present in the proof). For EVERY (s, c, x) in S x Cset x X and EVERY ordered pair (s, s') in S^2: |floor(s/c) - x| >= 2^64 and |floor(s/s') - x| >= 2^64; and for every pair of leaves and every pair of secrets |floor((s - s')/c) - (x - x')| >= 2^64 (shared blinding); floor(response / challenge of the same sub-proof) must not be the opening randomness of any commitment value in the proof or of the request's commitment (V != prod g_i^m_i * h^q, V != g_i^m_i * h^q over the three base families); the bit length of every response is the same (+-64 bits) whether the hidden attribute is 0, 1 or hash-sized. Additionally every embedded Boudot range proof is attacked through its proofs of square: floor(d / challenge)^2 plus the public offset, shifted by 2^T, must not land within 2^64 of the secret the range proof is about (hidden m_i, e, r). State = (proof, leaf); non-trivial = a quotient was computed against a prover secret.");
+    env.ctx.set_rule("worlds: CL1024 over a freshly generated key (n <= 3; thorough n <= 4 and CL2048 likewise); quick additionally CL2048 over the committed fixture key pair, everything else drawn afresh (n = 1 plus the longer-key and equal-value shapes). Per world: every honest issuance proof (all non-empty hidden subsets) and signature proof (all subsets). S = all integer leaves of the serialized proof; Cset = every Fiat-Shamir challenge a recipient can recompute (explicit challenge / C fields, C mod 2^t, and the hashes the verifier recomputes from public data); X = every secret the prover holds that the harness knows (hidden m_i, e, s, v, commitment randomness r, and any randomness leaf that is present in the proof). For EVERY (s, c, x) in S x Cset x X and EVERY ordered pair (s, s') in S^2: |floor(s/c) - x| >= 2^64 and |floor(s/s') - x| >= 2^64; and for every pair of leaves and every pair of secrets |floor((s - s')/c) - (x - x')| >= 2^64 (shared blinding); floor(response / challenge of the same sub-proof) must not be the opening randomness of any commitment value in the proof or of the request's commitment (V != prod g_i^m_i * h^q, V != g_i^m_i * h^q over the three base families); the bit length of every response is the same (+-64 bits) whether the hidden attribute is 0, 1 or hash-sized. Additionally every embedded Boudot range proof is attacked through its proofs of square: floor(d / challenge)^2 plus the public offset, shifted by 2^T, must not land within 2^64 of the secret the range proof is about (hidden m_i, e, r). State = (proof, leaf); non-trivial = a quotient was computed against a prover secret.");
     let bound = pow2(64);
     par_for(&items, |_, it| {
         if !env.want(&it.id) || env.ctx.out_of_time() { return; }
